@@ -737,7 +737,16 @@ func (peer *peer) handleUpdate(e *fsmMsg) ([]*table.Path, []bgp.Family, bool) {
 		for _, af := range conf.AfiSafis {
 			if isLimit := peer.isPrefixLimit(af.State.Family, &af.PrefixLimit.Config); isLimit {
 				peer.fsm.lock.Unlock()
-				return nil, nil, true
+				// The session is about to be shut and the Adj-RIB-In dropped. What this
+				// UPDATE withdrew has already left the Adj-RIB-In, so the drop will not
+				// withdraw it from the Loc-RIB: hand the withdrawals over now.
+				withdrawn := make([]*table.Path, 0, len(paths))
+				for _, p := range paths {
+					if p.IsWithdraw {
+						withdrawn = append(withdrawn, p)
+					}
+				}
+				return withdrawn, nil, true
 			}
 		}
 		peer.fsm.lock.Unlock()
